@@ -686,6 +686,14 @@ func (prop) Gen(r *core.Rand, tier string) []core.Case {
 		{ID: "fix-race", NT: true, Ops: []string{"group 0 join", "sub 0 1", "nbr 1 1", "add 0 1 1", "add 0 2 1", "race 1 4 1 0", "race 2 4 2 0", "race 1 4 3 0", "race 3 4 1 0", "seen 4 1", "on 1 4 1 0"}},
 		{ID: "fix-malformed", NT: false, Ops: []string{"lists 0", "add 0 1 1", "prune 0", "sub 0 1", "group 0 bogus", "add x 1 1", "on 1 2 3", "mc 1", "frob", "nbr 1 2", "seen 1 1", "on 1 2 3 0", "race 1 2 3 0"}},
 	}
+	// regression for the non-atomic de-duplication check (fixed: property=C38): before the repair about
+	// 1 in 250 of these concurrent duplicates was delivered twice, so 1500 of them expose it reliably
+	cd := core.Case{ID: "fix-concurrent-dup", NT: true, Ops: []string{"group 0 join", "sub 0 1", "nbr 1 1", "add 0 1 1", "add 0 2 1"}}
+	for i := 1; i <= 1500; i++ {
+		cd.Ops = append(cd.Ops, fmt.Sprintf("race %d 4 %d 0", 1+i%5, i))
+	}
+	cd.Ops = append(cd.Ops, "seen 4 1", "seen 4 1500", "on 3 4 77 0")
+	cs = append(cs, cd)
 	for i := 0; i < n; i++ {
 		rr := r.Fork()
 		var c core.Case
